@@ -18,6 +18,18 @@ listed = {n["property_id"] for n in na}
 for p in props:
     if p not in claimed and p not in listed:
         na.append({"property_id": p, "reason": "check not built yet (work in progress); the TLA+ technique applies"})
+# extension components (spec coverage beyond the listed properties): not property checks, listed as engines + notes
+exts = []
+for f in sorted(glob.glob(os.path.join(ROOT, "tools", "checks", "*.ext.json"))):
+    exts += json.load(open(f))
+base["engines"][0]["serves_properties"] = sorted(claimed)
+for e in exts:
+    base["engines"].append({"name": "tlc+vh extension " + e["property_id"], "path": e["quick_cmd"], "serves_properties": [],
+                            "kind_free_text": "extension component %s (not one of the listed properties; see %s): quick `%s`, thorough `%s`. %s" % (
+                                e["property_id"], e["level_claimed"].get("design_ref", "docs/"), e["quick_cmd"], e.get("thorough_cmd", "-"), e.get("technique", ""))})
+if exts:
+    base["notes"] += " Extension components beyond the listed properties (same technique, run with tools/check <id>): " + ", ".join(
+        "%s (%s)" % (e["property_id"], e["level_claimed"].get("design_ref", "")) for e in exts) + "."
 base["checks"] = checks
 base["not_applicable"] = sorted(na, key=lambda n: n["property_id"])
 try:
